@@ -92,6 +92,45 @@ def handle (args : List Json) : Json :=
     | _, _, _, _, _, _ => jerr "bad-case"
   | _ => jerr "bad-args"
 
-def commands : List (String × (List Lean.Json → Lean.Json)) := [("cacheloader", handle)]
+/-- schedule entries: `["step", i]` or `["edit", idx, full, v|null]` (edits folded into store snapshots) -/
+def parseSchedule : Store → List Json → Option (List (CEvent Store))
+  | _, [] => some []
+  | s, j :: js =>
+    match asArr? j with
+    | some [.str "step", i] => do
+      let rest ← parseSchedule s js
+      pure (.step (← asNat? i) :: rest)
+    | some [.str "edit", idx, full, v] => do
+      let v' ← (match v with | .null => some none | x => (asNat? x).map some)
+      let s' := s.set (← asNat? idx) (← asStr? full).toList v'
+      let rest ← parseSchedule s' js
+      pure (.store s' :: rest)
+    | _ => none
+
+def threadJson (th : Thread Handle) : Json :=
+  match th.pc with
+  | .done (.ok t) => Json.mkObj [("ok", Json.mkObj [("name", jstr (String.ofList t.name)),
+      ("text", jarr [jstr (String.ofList t.text.1), jnat t.text.2])])]
+  | .done (.error e) => Json.mkObj [("err", jstr (errName e))]
+  | _ => jstr "pending"
+
+/-- `["cacheloader-threads", cap, auto_reload, [name…], schedule]` on the dict loader
+→ `{"threads": [...], "cache": [[key, [full, v]]… least recently used first]}` -/
+def handleThreads (args : List Json) : Json :=
+  match args with
+  | [cap, ar, names, sched] =>
+    match asNat? cap, asBool? ar, (asArr? names).bind (mapM? asStr?), (asArr? sched).bind (parseSchedule Store.emptyStore) with
+    | some cap, some ar, some names, some es =>
+      let cfg : Cfg := { autoReload := ar, nsKey := false, eg := [] }
+      let rs : List Req := names.map fun n => { name := n.toList, kw := none, ctx := none, mode := .sync, globals := none }
+      let fin := crun dictLoader cfg (cinit cap Store.emptyStore rs) es
+      Json.mkObj [("threads", jarr (fin.threads.map threadJson)),
+                  ("cache", jarr (fin.cache.items.map fun p =>
+                      jarr [jstr (String.ofList p.1), jarr [jstr (String.ofList p.2.text.1), jnat p.2.text.2]]))]
+    | _, _, _, _ => jerr "bad-case"
+  | _ => jerr "bad-args"
+
+def commands : List (String × (List Lean.Json → Lean.Json)) :=
+  [("cacheloader", handle), ("cacheloader-threads", handleThreads)]
 
 end Driver.C23
